@@ -720,6 +720,7 @@ func helperShapes(files map[string]*ast.File, fn func(file, recv, name string) *
 			}
 		}
 	}
+	fallbackRel = fallbackOf(fn)
 	if h := fn("class.go", "*ClassMethod", "Call"); h != nil {
 		if len(h.Body.List) == 0 || !strings.Contains(nodeText(h.Body.List[0]), "cmc.SelfClass = lexicalClassOfMethod(ctx.GetVM(), cmc.Class, m)") {
 			note("ClassMethod.Call: the lexical class is not recorded by the first statement")
@@ -730,6 +731,70 @@ func helperShapes(files map[string]*ast.File, fn func(file, recv, name string) *
 			note("LambdaExpression.Call: the closure context does not inherit SelfClass")
 		}
 	}
+}
+
+// fallbackRel: which relation between the receiver's class and the scope class the last statement of
+// canAccessDeclared asks for before it grants the scope class's own same-named member
+// (Model.AccessDecl.Fallback): the statement must be
+//
+//	return scope != nil && declares(scope) && <T>
+//
+// T = classExtends(vm, class, scope.GetName())  → recvExtendsScope (classExtends must be the one upward loop
+// that compares every ancestor's name with the target), T = isClassInHierarchy(vm, class, scope) in either
+// argument order → symmetric, no T → unconditional, `return false` → absent, anything else → shapeChanged.
+var fallbackRel = ".shapeChanged"
+
+func fallbackOf(fn func(file, recv, name string) *ast.FuncDecl) string {
+	h := fn("visibility.go", "", "canAccessDeclared")
+	if h == nil || len(h.Body.List) == 0 {
+		note("canAccessDeclared: not found")
+		return ".shapeChanged"
+	}
+	if len(h.Body.List) != 6 {
+		note("canAccessDeclared: expected 6 statements, found %d", len(h.Body.List))
+		return ".shapeChanged"
+	}
+	if t := nodeText(h.Body.List[4]); t != "scope := scopeClassOf(ctx)" {
+		note("canAccessDeclared: the scope of the fallback is %q", t)
+		return ".shapeChanged"
+	}
+	last := nodeText(h.Body.List[5])
+	const pre = "return scope != nil && declares(scope)"
+	switch {
+	case last == "return false":
+		return ".absent"
+	case last == pre:
+		return ".unconditional"
+	case last == pre+" && classExtends(vm, class, scope.GetName())":
+		ce := fn("visibility.go", "", "classExtends")
+		if ce == nil {
+			note("classExtends: not found")
+			return ".shapeChanged"
+		}
+		txt := nodeText(ce.Body)
+		loops := 0
+		ast.Inspect(ce.Body, func(n ast.Node) bool {
+			if _, ok := n.(*ast.ForStmt); ok {
+				loops++
+			}
+			return true
+		})
+		for _, want := range []string{"extend := class.GetExtend()", "for extend != nil", "if *extend == target { return true }", "extend = cls.GetExtend()", "return false"} {
+			if !strings.Contains(txt, want) {
+				note("classExtends: %q not found", want)
+				return ".shapeChanged"
+			}
+		}
+		if loops != 1 || len(ce.Body.List) != 3 {
+			note("classExtends: expected one upward loop between the initialisation and `return false`")
+			return ".shapeChanged"
+		}
+		return ".recvExtendsScope"
+	case last == pre+" && isClassInHierarchy(vm, class, scope)", last == pre+" && isClassInHierarchy(vm, scope, class)":
+		return ".symmetric"
+	}
+	note("canAccessDeclared: fallback clause not recognised: %q", last)
+	return ".shapeChanged"
 }
 
 // nodeText: source text of a node, whitespace normalised
@@ -1641,7 +1706,7 @@ func main() {
 
 	// ---- emit
 	var sb strings.Builder
-	sb.WriteString("import Model.Access\nimport Model.Types\nimport Model.Inst\n")
+	sb.WriteString("import Model.Access\nimport Model.Types\nimport Model.Inst\nimport Model.AccessDecl\n")
 	sb.WriteString("/-! Which modifier test each arm of each access node performs, and what each typed boundary does with the\ndeclared type (see `extract/c07/main.go` for the syntactic shapes that are recognised). -/\n")
 	sb.WriteString("namespace Generated.C07Access\nopen Model.Access Model.Types\n\n")
 	sb.WriteString("def table : Table := fun p r =>\n  match p, r with\n")
@@ -1668,6 +1733,7 @@ func main() {
 		fmt.Fprintf(&sb, "(%s, %v)", ex.LeanString(l.name), l.first)
 	}
 	sb.WriteString("]\n")
+	fmt.Fprintf(&sb, "\n/-- which relation between the receiver's class and the scope class `canAccessDeclared` asks for before it\ngrants the scope class's own same-named member -/\ndef fallbackRel : Model.AccessDecl.Fallback := %s\n", fallbackRel)
 	fmt.Fprintf(&sb, "\n/-- does `new` run the abstract test first and the completeness validation on every call -/\ndef instGlue : Model.Inst.Glue := ⟨%v, %v⟩\n", abstractFirst, validateEvery)
 	sort.Strings(notes)
 	{
